@@ -13,6 +13,9 @@ if "sort" in sections or len(sys.argv) == 1:
     from rules import sortrules
     fids = [f for f in prog.bodies if prog.bodies[f].file == "a2lfile/src/sort.rs"]
     tab["sort"] = sortrules.sort_table(prog, fids)
+if "ifdata" in sections or len(sys.argv) == 1:
+    from rules import c18
+    tab["ifdata"] = c18.items_table(prog)
 if "limits" in sections:
     from rules import c12
     tab["limits"] = c12.limits_table(prog)
